@@ -118,7 +118,7 @@ def run_verus_unit(unit, repo, work, tier='quick', seed=0, extra_args=None, rlim
     res['assumption_scan'] = assumption_scan(text)
     rl = ensure_rlibs()
     cmd = ['verus', gen, '--crate-name', unit.replace('-', '_'), '--triggers-mode', 'silent', '--output-json', '--time-expanded',
-           '--multiple-errors', '4', '--num-threads', '8']
+           '--multiple-errors', '16', '--num-threads', '8']
     needed = set(re.findall(r'^\s*(?:pub\s+)?use\s+(\w+)', text, re.M)) | set(re.findall(r'\b(fnv|smallvec)::', text))
     for name, path in rl.items():
         if name in needed:
